@@ -408,7 +408,7 @@ class Embedding(Op):
 # ----------------------------------------------------------------------------- attention
 class Sdpa(Op):
     name = "scaled_dot_product_attention"
-    coords = {"batch": [[2], [], [2, 3], [1, 2, 2]], "L": [4, 1, 3], "S": [4, 2, 5], "d": [3, 1, 8],
+    coords = {"batch": [[2], [], [2, 3], [1, 2, 2]], "L": [4, 1, 3], "S": [4, 2, 5], "d": [3, 1, 8], "dv": [None, 5, 1],
               "mask": [None, "bool", "float"], "dropout_p": [0.0, 0.5], "is_causal": [False, True],
               "mult": MULTS, "dtype": DT}
 
@@ -423,7 +423,7 @@ class Sdpa(Op):
         b = c["batch"]
         t = {"query": _randn(g, b + [c["L"], c["d"]], c["dtype"]),
              "key": _randn(g, b + [c["S"], c["d"]], c["dtype"]),
-             "value": _randn(g, b + [c["S"], c["d"]], c["dtype"])}
+             "value": _randn(g, b + [c["S"], c.get("dv") or c["d"]], c["dtype"])}
         if c["mask"] == "bool":
             m = torch.rand([c["L"], c["S"]], generator=g) > 0.3
             m[:, 0] = True
